@@ -11,6 +11,7 @@ payload :  init <s|m> <atoms|-> <bonds|-> ; <op> ; <op> …
 response: `<state>` of the initial molecule, then `<out>#<state>` per op, joined by ';'
    state  = A=<atomid>[!],…|R=<coord>,…|T=<tag>,…|Q=<charge|n>,…|U=<tag>,…|B=<bid>:<a1>:<a2>[!],…|inv=<0|1>
             (`!` marks an object whose parent is not the molecule; T/U are the ghost tags)
+            after mkview / vread the state is followed by |X=<atoms the view holds> resp. |X=<rows the view reads>
 -/
 import Molli.Util.Basic
 import Molli.Model.MolEdit
@@ -64,6 +65,9 @@ def parseOp (s : String) : Option Op :=
         | [a, c] => do pure ((← parseAtomId? a), (← c.toNat?))
         | _ => none) l
       pure (.addHydrogens hs)
+  | ["mkview", l] => do pure (.mkView (← parseList? parseRef? l))
+  | ["vread", l] => do pure (.viewRead (← parseList? parseAtomId? l))
+  | ["vwrite", l, ps] => do pure (.viewWrite (← parseList? parseAtomId? l) (← parseList? (·.toNat?) ps))
   | _ => none
 
 def parseInit (s : String) : Option Mol :=
@@ -102,7 +106,13 @@ def handle (payload : String) : String :=
     | some m0, some ops =>
       let (_, outs) := ops.foldl (fun (acc : Mol × List String) o =>
           let (m', out) := step acc.1 o
-          (m', ((if out == .ok then "ok" else "err") ++ "#" ++ showState m') :: acc.2)) (m0, [showState m0])
+          let extra := match o with
+            | .mkView refs => "|X=" ++ (match resolveView acc.1 refs with
+                | some l => ",".intercalate (l.map showId) | none => "none")
+            | .viewRead as => "|X=" ++ (match viewRows acc.1 as with
+                | some l => ",".intercalate (l.map toString) | none => "none")
+            | _ => ""
+          (m', ((if out == .ok then "ok" else "err") ++ "#" ++ showState m' ++ extra) :: acc.2)) (m0, [showState m0])
       ";".intercalate outs.reverse
     | _, _ => "err:bad-request"
 
